@@ -1,4 +1,5 @@
 import Fips204.Lemmas.SpecApi
+import Fips204.Lemmas.OracleReal
 /-!
 # C02 (continued) — the two verifying entry points are FIPS 204 Algorithms 3 and 5 **as the standard writes them**
 
@@ -28,6 +29,16 @@ theorem hash_verify_is_HashML_DSA_Verify_as_written (m : Mode) (O : Oracles) (hO
       AgreesWith (hashVerify m O p pk msg sig ctx ph)
         (Spec.hashVerify (specParams p) O.h O.g O.sha256 O.sha512 (1680 * O.fuelScale) (8 + 1360 * O.fuelScale) pkb msg sig ctx (specPh ph)) :=
   hashVerify_is_algorithm_5_as_written m O hO hW p hp pkb msg sig ctx ph hpb hpl hb hlen
+
+/-- `hash_verify` is Algorithm 5 with no hypothesis on the hash functions: for SHAKE, SHA-256 and SHA-512 as the driver executes them
+    (`OracleOk` and `Spec.WF` are proved of them in `Lemmas/OracleReal`) -/
+theorem hash_verify_is_HashML_DSA_Verify_for_the_executed_hashes (m : Mode) (scale : Nat) (p : ParamSet)
+    (hp : p ∈ [ml_dsa_44, ml_dsa_65, ml_dsa_87]) (pkb msg sig ctx : List Nat) (ph : Ph)
+    (hpb : ∀ x ∈ pkb, x < 256) (hpl : pkb.length = p.pkLen) (hb : ∀ x ∈ sig, x < 256) (hlen : sig.length = p.sigLen) :
+    ∃ pk, expandPublic m (Exec.realOracles scale) p pkb = .ok (some pk) ∧
+      AgreesWith (hashVerify m (Exec.realOracles scale) p pk msg sig ctx ph)
+        (Spec.hashVerify (specParams p) Exec.shake256 Exec.shake128 Exec.sha256 Exec.sha512 (1680 * scale) (8 + 1360 * scale) pkb msg sig ctx (specPh ph)) :=
+  hash_verify_is_HashML_DSA_Verify_as_written m (Exec.realOracles scale) (driverOracles_ok scale) (driverOracles_wf scale) p hp pkb msg sig ctx ph hpb hpl hb hlen
 
 /-- an over-long context is rejected by the standard's algorithm whatever the other inputs are (a test of the transcription, labelled as a test) -/
 example (P : Spec.Params) (H G : List Nat → Nat → List Nat) (pk M sigma ctx : List Nat) (h : ctx.length > 255) :
